@@ -35,6 +35,9 @@ def c01Parse (args : List String) (impl : String) : Answer :=
             else if impl.startsWith "ok" then
               let minimal := match r with | .ok p _ => p.minimal | .err _ => false
               let isExt := match r with | .ok p _ => p.fmt.isExt | .err _ => false
+              -- "consumed to exactly the end of the transaction": the count is where the (proved) parser stops
+              let endOfTx := match r with | .ok _ rest => some (bs.length - rest.length) | .err _ => none
+              if endOfTx.isSome && endOfTx != some n then "false:consumed-is-not-the-end-of-the-transaction" else
               match hexDec (fieldD f (if isExt then "rex" else "re") "zz") with
               | none => "false:no-reserialisation"
               | some re =>
